@@ -31,7 +31,9 @@ _P = "doi:10.5063/F1"
 DERIVED = ([_P, _hl.sha256(_P.encode()).hexdigest(), _hl.sha256((_P + "ns").encode()).hexdigest()],
            [None, _hl.sha256(_P.encode()).hexdigest()])
 SETS_QUICK.append(DERIVED)
-SETS_THOROUGH = SETS_QUICK + [
+# identifiers so long that one object's reference list exceeds 1 MiB (thorough tier, object calls only)
+HUGE = (["h" * 600000 + "q", "h" * 600000, "z"], [None])
+SETS_THOROUGH = SETS_QUICK + [HUGE] + [
     (["a", "ab", "b", "ba"], [None, "c", "bc", "cb"]),
     (["/etc/passwd", "..", "."], [None, "/", ".."]),
     (["$(id)", "`id`", "a;b", "a|b"], [None, "%s", "{0}"]),
@@ -41,6 +43,8 @@ SETS_THOROUGH = SETS_QUICK + [
 
 
 def menu_fn(w):
+    if len(w.pids[0]) > 100000:
+        return object_menu(w, with_invalid=False, with_reads=True)
     return object_menu(w, with_invalid=False, with_reads=True) + metadata_menu(w)
 
 
